@@ -39,6 +39,11 @@ def representatives():
         {"dir": "h", "hday": "last", "shape": "24h", "base": 0.2, "hh": 0, **P},
         {"dir": "c", "cday": "first", "shape": "24h", "base": 0.2, "ch": 0, **P},
         {"dir": "h", "hday": "first", "shape": "24h", "base": 0, "hh": 0, **P},
+        # both peaks on one day: heating in the morning, cooling in the afternoon (and the other way round)
+        {"dir": "both", "cday": "mid", "hday": "mid", "shape": "1h", "base": 0.2, "hh": 7, "ch": 15, **P},
+        {"dir": "both", "cday": "last", "hday": "last", "shape": "6h", "base": 0, "hh": 5, "ch": 14, **P},
+        {"dir": "both", "cday": "second", "hday": "second", "shape": "1h", "base": 0.2, "hh": 16, "ch": 8, **P},
+        {"dir": "c", "cday": "last", "shape": "24h", "base": 0.95, "ch": 0, **P},
     ]
     cases = [{"profile": "patterns", "patterns": [p] * 12} for p in pats]
     # alternating months (cooling-only summers, heating-only winters)
